@@ -4,7 +4,8 @@
 //!              indent=none|tabs|<n>, aindent=none|tabs|<n>, cp=<n>, tp=<n> (coordinate / transform precision),
 //!              full=1 (always return the written text)
 //!       -> {"len":..,"xml":null|"<error>","root":[tag,ns],"skeleton":[tag,{attr:value..},[kids..]],
-//!           "bad_numbers":[[tag,attr,value,first bad token]..],"reparse":null|"<error>","size_a":[..],"size_b":[..],
+//!           "bad_numbers":[[tag,attr,value,first bad token]..],"reparse":null|"<error>","dims_a":[w,h],"dims_b":[w,h] (Tree::size before / after),
+//!           "size_a":[..],"size_b":[..],
 //!           "dump":<dump of the original tree>}            or {"error":..} when the document itself does not parse
 use crate::dump::{dump_tree, esc};
 use crate::util::*;
@@ -46,7 +47,7 @@ pub fn parse_wopts(spec: &str) -> usvg::WriteOptions {
 
 const KEEP: &[&str] = &[
     "id", "clip-path", "mask", "fill", "stroke", "filter", "in", "in2", "result", "font-size", "text-decoration",
-    "gradientUnits", "patternUnits",
+    "gradientUnits", "patternUnits", "style",
 ];
 
 /// attributes whose value is a number or a list of numbers
@@ -246,6 +247,13 @@ fn op_write(payload: &str) -> String {
     }
     match usvg::Tree::from_str(&text, &opt) {
         Ok(t2) => {
+            o.push_str(&format!(
+                ",\"dims_a\":[{},{}],\"dims_b\":[{},{}]",
+                crate::dump::num(tree.size().width()),
+                crate::dump::num(tree.size().height()),
+                crate::dump::num(t2.size().width()),
+                crate::dump::num(t2.size().height())
+            ));
             o.push_str(",\"reparse\":null,\"size_a\":");
             o.push_str(&sizes(&tree, !wo.preserve_text));
             o.push_str(",\"size_b\":");
